@@ -372,6 +372,7 @@ func checkC05(c *core.Ctx, r *core.Report) {
 	// ---------------------------------------------------------------- (5) admission of segments to the time-ordered scheduler
 	checkSchedulerAdmission(c, r)
 	checkSortLimitCut(c, r)
+	checkMergeLimitCut(c, r)
 }
 
 // funcValues resolves a function-typed value to the functions it can denote
